@@ -149,7 +149,15 @@ fn queries(bname: &str) -> Vec<Expr> {
         call("name", vec![path(true, vec![step(Axis::Child, NodeTest::Any), step(Axis::Child, NodeTest::Any)])]),
         call("count", vec![path(true, vec![step(Axis::Child, NodeTest::Any), step(Axis::Namespace, NodeTest::Any)])]),
         path(true, vec![step(Axis::Child, NodeTest::Any), step(Axis::Namespace, name("p"))]),
+        // the expanded name of a namespace node: the prefix, empty for the default namespace
+        path(true, vec![step(Axis::Child, NodeTest::Any), step(Axis::Namespace, name("xmlns"))]),
+        call("count", vec![path(true, vec![step(Axis::Child, NodeTest::Any), stepp(Axis::Namespace, NodeTest::Any, vec![bin(Op::Eq, call("name", vec![]), lit(""))])])]),
+        call("count", vec![path(true, vec![step(Axis::Child, NodeTest::Any), stepp(Axis::Namespace, NodeTest::Any, vec![bin(Op::Eq, call("local-name", vec![]), lit("p"))])])]),
+        call("count", vec![path(true, vec![step(Axis::Child, NodeTest::Any), stepp(Axis::Namespace, NodeTest::Any, vec![bin(Op::Ne, call("namespace-uri", vec![]), lit(""))])])]),
         path(true, vec![step(Axis::Child, NodeTest::Any), step(Axis::Namespace, NodeTest::Any)]),
+        // document order on one element: its namespace nodes, then its attributes, whatever the order in the start tag
+        bin(Op::Union, path(true, vec![step(Axis::Child, NodeTest::Any), step(Axis::Attribute, NodeTest::Any)]), path(true, vec![step(Axis::Child, NodeTest::Any), step(Axis::Namespace, NodeTest::Any)])),
+        call("count", vec![path(true, vec![step(Axis::Child, NodeTest::Any), step(Axis::Attribute, NodeTest::Any), step(Axis::Preceding, NodeTest::Node)])]),
     ];
     if bname != "none" && bname != "default=u1" {
         for pre in [r, s] {
@@ -369,7 +377,7 @@ impl Check for C10C {
     }
     fn meta(&self) -> Meta {
         Meta {
-            rule: "documents: the element skeleton r > a > a plus b under r; per element five slots — prefix {none, p, q}, default-namespace declaration {none, u1, u2, xmlns=\"\"}, xmlns:p {none, u1, u2}, xmlns:q {none, u1}, attribute {none, x, p:x, q:x, xml:lang, p:xmlns (an ordinary attribute, not a declaration)} — every assignment with at most k slots differing from the plain document, restricted to namespace-well-formed ones (shadowing, re-declaration, undeclaration, attributes under a default namespace, xml: without declaration); each document also with its prefixes renamed consistently (p<->q, p->z). Oracle: scope resolution on the abstract document. Compared: as_expanded_name of every element and attribute, in_scope_namespace of every element, and under 8 caller binding sets (a prefix bound twice, none, r=u1, r=u2, r=u1+s=u2, default=u1, the same with renamed caller prefixes, document prefixes bound differently by the caller) 19-29 name tests and name functions (a, *, r:a, r:*, @x, @r:x, @r:*, self::r:a, namespace-uri(), local-name(), name(), the namespace axis) against the reference evaluator; unbound prefixes must be errors. Non-trivial = one element's names compared.",
+            rule: "documents: the element skeleton r > a > a plus b under r; per element five slots — prefix {none, p, q}, default-namespace declaration {none, u1, u2, xmlns=\"\"}, xmlns:p {none, u1, u2}, xmlns:q {none, u1}, attribute {none, x, p:x, q:x, xml:lang, p:xmlns (an ordinary attribute, not a declaration)} — every assignment with at most k slots differing from the plain document, restricted to namespace-well-formed ones (shadowing, re-declaration, undeclaration, attributes under a default namespace, xml: without declaration); each document also with its prefixes renamed consistently (p<->q, p->z). Oracle: scope resolution on the abstract document. Compared: as_expanded_name of every element and attribute, in_scope_namespace of every element, and under 8 caller binding sets (a prefix bound twice, none, r=u1, r=u2, r=u1+s=u2, default=u1, the same with renamed caller prefixes, document prefixes bound differently by the caller) 25-35 name tests and name functions (a, *, r:a, r:*, @x, @r:x, @r:*, self::r:a, namespace-uri(), local-name(), name(), the namespace axis, the names of namespace nodes, namespace and attribute nodes of one element in document order) against the reference evaluator; unbound prefixes must be errors. Non-trivial = one element's names compared.",
             bounds_quick: "k = 3 (17,605 assignments before the well-formedness filter) x (3 renamings + reversed attribute order) x 8 binding sets",
             bounds_thorough: "k = 4 (assignments with up to 4 non-default slots of 20) x (3 renamings + reversed attribute order) x 8 binding sets",
             assumptions: &["an unprefixed element name test uses the caller's default binding when one is set (the tools' documented extension), unprefixed attribute name tests never do"],
